@@ -185,10 +185,37 @@ def impl(case):
         del r
         if rd is not None:
             rd.close()
+        rewritten = None
+        if backend in ('flat', 'npy') and case.get('rewrite'):
+            # the SAME paths now hold another recording (other lengths, other cells): a reader opened afterwards, in
+            # the same process and with the same arguments, shows the files as they are now
+            parts2 = [max(1, l + dl) for l, dl in zip(parts, case['rewrite'])]
+            n2 = sum(parts2)
+            A2 = _array(n2, nch, dtype)[::-1].copy()
+            if backend == 'flat':
+                off = 0
+                for p, l in zip(paths, parts2):
+                    with open(str(p), 'wb') as f:
+                        f.write(b'\xee' * case.get('offset', 0))
+                        f.write(A2[off:off + l].tobytes())
+                    off += l
+                r2 = get_ephys_reader(paths if len(paths) > 1 or case.get('aslist') else paths[0],
+                                      sample_rate=sr, dtype=np.dtype(dtype), n_channels=nch,
+                                      offset=case.get('offset', 0))
+            else:
+                np.save(d / 'a.npy', A2)
+                r2 = get_ephys_reader(d / 'a.npy', sample_rate=sr)
+            try:
+                whole = r2[:]
+                rewritten = dict(n_samples=int(r2.n_samples), expected=n2,
+                                 same=bool(whole.shape == A2.shape and np.array_equal(whole, A2)))
+            except Exception as e:  # noqa
+                rewritten = dict(n_samples=int(r2.n_samples), expected=n2, same=False, raised=type(e).__name__)
+            del r2
     if 'meta' in src:
         src['meta'] = [dict(n_channels=int(m['n_channels']), dtype=str(m['dtype']), sample_rate=m['sample_rate'],
                             chunk_bounds=[int(x) for x in m['chunk_bounds']]) for m in src['meta']]
-    return dict(attrs=attrs, res=res, src=src)
+    return dict(attrs=attrs, res=res, src=src, rewritten=rewritten)
 
 
 def lean_cols(c):
@@ -277,6 +304,10 @@ def judge(case, impl_res, ans):
         if mt['n_channels'] != case['nch'] or np.dtype(mt['dtype']) != np.dtype(case['dtype']) or \
                 mt['chunk_bounds'][-1] != l or mt['sample_rate'] != case.get('sr', 100.):
             return 'MACHINERY: mtscomp metadata %s do not describe the compressed part (%d rows)' % (mt, l)
+    rw = ok.get('rewritten')
+    if rw and (rw['n_samples'] != rw['expected'] or not rw['same']):
+        return ('SPEC: after the files were replaced (same paths) a newly opened reader does not show the new '
+                'recording: %s' % rw)
     why = differs(sa)
     if why:
         return ('SPEC: reader %s differs from the concatenated array: %s (concatenation: %s)' % (why, a, sa))
@@ -320,6 +351,8 @@ def nontrivial(case):
 def tally(rep, case, impl_res, ans):
     rep.count('backend:' + case['backend'] + ('(F-ordered)' if case['backend'] == 'npy' and case.get('npy_order') == 'F' else ''))
     rep.count('dtype:' + case['dtype'])
+    if case.get('rewrite') and case['backend'] in ('flat', 'npy'):
+        rep.count('same_paths_rewritten_and_reopened')
     rep.count('parts:%d' % min(len(case['parts']), 6))
     rep.count('index_expressions', len(case['items']))
     for it, c, kind, pre in map(_entry, case['items']):
@@ -493,7 +526,8 @@ def gen(tier, rng):
                 yield dict(p=PID, backend='flat', parts=parts, nch=nch, dtype=dtype,
                            offset=[0, 7, isz * nch * 2, 1][k % 4], sr=[100., 1000., 2.5][k % 3], items=its,
                            aslist=bool(k % 2), names=['idx', 'rev', 'nat'][k % 3],
-                           pathkind=['path', 'str'][(k // 3) % 2])
+                           pathkind=['path', 'str'][(k // 3) % 2],
+                           rewrite=[[1, 0, 2][(k + i) % 3] for i in range(len(parts))] if k % 3 == 0 else None)
         # single-part backends
         for backend in ('npy', 'array', 'cbin'):
             k += 1
@@ -510,7 +544,7 @@ def gen(tier, rng):
                      cd=[1., .2][k % 2], items=its, npy_order='C')
             yield c
             if backend == 'npy' and nch >= 2:
-                yield dict(c, npy_order='F')
+                yield dict(c, npy_order='F', rewrite=[2])
     # several compressed files (the reader only takes the first one: open known finding)
     for parts in ([4, 6], [3, 2, 5]):
         its = [[{'slice': [None, None]}, None, 'py'], [{'int': sum(parts) - 1}, None, 'py'], [{'slice': [parts[0] - 1, parts[0] + 1]}, None, 'py']]
@@ -549,4 +583,6 @@ def gen(tier, rng):
         yield dict(p=PID, backend='flat', parts=parts, nch=nch, dtype=dtype, offset=rng.pick([0, 0, 5, 128]),
                    sr=rng.pick([100., 30000., 0.035, 1 / 16, 3 / 16, 1 / 64]), items=its, aslist=True,
                    names=rng.pick(['idx', 'rev', 'nat']),
-                   pathkind=rng.pick(['path', 'str']))
+                   pathkind=rng.pick(['path', 'str']),
+                   # afterwards the same paths are rewritten (each part longer / shorter / as long) and reopened
+                   rewrite=[rng.pick([0, 0, 3, -2, 17]) for _ in parts] if rng.random() < .5 else None)
